@@ -189,7 +189,7 @@ func init() {
 				}
 			}
 		}
-		n4 := c.pick(20000, 400000)
+		n4 := c.pick(20000, 150000)
 		for i := 0; i < n4; i++ {
 			box := boxes[c.rng.Intn(len(boxes))]
 			r := closedRing([][2]int{pt(c.rng.Intn(n)), pt(c.rng.Intn(n)), pt(c.rng.Intn(n)), pt(c.rng.Intn(n))})
@@ -238,7 +238,7 @@ func init() {
 			}
 			return closedRing(v)
 		}
-		nr := c.pick(5000, 150000)
+		nr := c.pick(5000, 60000)
 		for i := 0; i < nr; i++ {
 			c08S = 60 + 60*(i%2)
 			box := rbox()
